@@ -251,3 +251,18 @@ pub fn toolkit_decrypt(key: &[u8; 16], nonce: MessageNonce, msg: &[u8], aad: &[u
 pub fn whoareyou_ref_nonce(r: &WhoAreYouRef) -> MessageNonce {
     r.1
 }
+
+lazy_static! {
+    static ref INTERNAL_REQUEST_IDS: parking_lot::Mutex<Vec<RequestId>> = parking_lot::Mutex::new(Vec::new());
+}
+
+/// Records the id the handler has just drawn for an internal request (called from
+/// `handle_challenge`), so that a harness can hand the draw to a model as an oracle input.
+pub(crate) fn record_internal_request_id(id: &RequestId) {
+    INTERNAL_REQUEST_IDS.lock().push(id.clone());
+}
+
+/// Takes the internal request ids drawn since the last call, in order.
+pub fn take_internal_request_ids() -> Vec<RequestId> {
+    std::mem::take(&mut *INTERNAL_REQUEST_IDS.lock())
+}
